@@ -14,7 +14,7 @@ ASSUMPTIONS = [
 ]
 TRUSTED = ["the RFC 5545 3.2 param tokenizer used as independent oracle is hand-written in this module"]
 
-VAL_ALPHA = [",", ";", ":", "=", "'", "^", " ", "\\", "%", "2", "C", "3", "A", "a", "n", "’", "\t", "é"]
+VAL_ALPHA = [",", ";", ":", "=", "'", "^", " ", "\\", "%", "2", "C", "3", "A", "a", "n", "’", "\t", "é", "\U0001F600"]
 NAME_CHARS = "abcXYZ019-_."
 LINE_FORB = ["\\,", "\\;", "\\:", "\\\\", "%2C", "%3A", "%3B", "%5C"]
 
@@ -244,6 +244,33 @@ def run(ctx, res):
             except ValueError:
                 got = ["err", "ValueError"]
             res.corr("Parameters.from_ical (raw text)", s, got, o[4])
+    # ---- the parameters of parsed properties are objects of their own: changing one leaves every other one alone
+    import icalendar
+    txt = ("BEGIN:VCALENDAR\r\nVERSION:2.0\r\nBEGIN:VEVENT\r\nUID:u1\r\nSUMMARY:s\r\nLOCATION:l\r\nATTENDEE:mailto:a@x\r\n"
+           "COMMENT;LANGUAGE=en:c\r\nEND:VEVENT\r\nBEGIN:VTODO\r\nUID:u2\r\nSUMMARY:t\r\nEND:VTODO\r\nEND:VCALENDAR\r\n")
+    for edit in ("setitem", "update", "name-setter", "clear-other"):
+        cal = icalendar.Calendar.from_ical(txt)
+        ev, td = cal.subcomponents
+        before = {(c.name, k): obs_params(c[k].params) for c in (cal, ev, td) for k in c.keys()}
+        if edit == "setitem":
+            ev["SUMMARY"].params["LANGUAGE"] = "de"
+            touched = [("VEVENT", "SUMMARY")]
+        elif edit == "update":
+            ev["LOCATION"].params.update({"ALTREP": "http://x", "X-P": ["a", "b"]})
+            touched = [("VEVENT", "LOCATION")]
+        elif edit == "name-setter":
+            ev["ATTENDEE"].name = "Anna"
+            touched = [("VEVENT", "ATTENDEE")]
+        else:
+            ev["COMMENT"].params.clear()
+            touched = [("VEVENT", "COMMENT")]
+        after = {(c.name, k): obs_params(c[k].params) for c in (cal, ev, td) for k in c.keys()}
+        other = Contentline("X-FRESH:v").parts()[1]
+        res.evaluations += 1
+        changed = sorted(k for k in before if before[k] != after[k] and k not in touched)
+        if changed or len(other):
+            res.fail("C08: editing the parameters of one parsed property changed the parameters of other properties (or of a "
+                     "freshly parsed line)", edit, observed=[changed, obs_params(other)])
     # ---- parameter values that are typed property values (rendered with their own to_ical, then quoted as needed)
     from icalendar.prop import vInt, vBoolean, vCalAddress, vUri, vText
     typed = [({"X-N": vInt(5)}, "X-N=5", {"X-N": "5"}), ({"RSVP": vBoolean(True)}, "RSVP=TRUE", {"RSVP": "TRUE"}),
